@@ -147,6 +147,22 @@ def gen_scenario(rng):
     return fmt_scn(t, m, dc, dr.encode("utf-8"), steps)
 
 
+def gen_multi(rng):
+    """several concurrent JSON connections on one channel receiving the same publications (the hub
+    encodes a publication once and hands the same bytes to every subscriber)"""
+    kinds = [rng.choice(["sse", "sse", "sse", "hs-json"])]
+    for _ in range(rng.choice([1, 1, 2])):
+        kinds.append(rng.choice(["hs-json", "sse"]))
+    profile = rng.choice(["crlf", "crlf", "cr", "mixed", "lf", "none"])
+    pubs = []
+    for _ in range(rng.choice([1, 1, 2, 3])):
+        p = gen_json_payload(rng, profile)
+        if len(p) < 30000:
+            pubs.append(p)
+    s = ",".join("pub:" + hx(p) for p in pubs) if pubs else "none"
+    return f"multi c={','.join(kinds)} dc=3501 dr={hx(rng.choice(REASONS))} s={s}"
+
+
 def fmt_scn(t, m, dc, dr, steps):
     s = ",".join(f"{k}:{hx(d)}" for k, d in steps) if steps else "none"
     return f"scn t={t} m={m} dc={dc} dr={hx(dr)} s={s}"
@@ -257,26 +273,93 @@ def lean_lines(ctx, lines):
     return ctx.run_lines([path], lines, timeout=3000)
 
 
+def is_json(m):
+    try:
+        json.loads(m.decode("utf-8"))
+        return True
+    except (ValueError, UnicodeDecodeError):
+        return False
+
+
+def parse_units(op, out):
+    """connections of one scenario: list of (transport, status, expected count, msgs, body)"""
+    if op.startswith("multi "):
+        units = []
+        for part in out.split(" ;; ")[1:]:
+            kv = dict(w.split("=", 1) for w in part.split())
+            units.append((kv["t"], int(kv["status"]), int(kv["exp"]), unlist(kv["msgs"]), unhx(kv["body"])))
+        return units
+    status, exp, msgs, body = parse_out(out)
+    return [(parse_scn(op)[0], status, exp, msgs, body)]
+
+
+def judge(ctx, t, status, exp, msgs, body, mbody, mparse, record, tag=""):
+    if record:
+        ctx.count("transport:" + t + tag)
+        ctx.count("msgs", len(msgs))
+        nl = sum(1 for m in msgs if b"\n" in m)
+        cr = sum(1 for m in msgs if b"\r" in m)
+        if t != "hs-proto":
+            ctx.count("json-frames-checked-for-CRLF", len(msgs))
+            if nl:
+                ctx.count("json-frames-with-raw-LF", nl)
+            if cr:
+                ctx.count("json-frames-with-raw-CR:" + t, cr)
+        else:
+            ctx.count("proto-frames-with-CR-or-LF", sum(1 for m in msgs if b"\n" in m or b"\r" in m))
+            ctx.count("proto-frames-empty", sum(1 for m in msgs if not m))
+    want = expected_decoding(t, msgs)
+    pyd = py_decode(t, body)
+    if status != 200:
+        return ("harness", f"unexpected HTTP status {status}", {}, {})
+    if len(msgs) != exp:
+        return ("harness", f"{len(msgs)} messages handed to the transport, scenario expects {exp}", {}, {})
+    if mparse != want:
+        cause = cause_of(t, msgs)
+        bad = [m for m in msgs if (b"\r" in m or b"\n" in m)] if t != "hs-proto" else []
+        return ("property",
+                f"{t}: the client-side decoding of the response body is not the sequence of messages handed to the transport ({cause})",
+                {"transport": t, "cause": cause},
+                {"decoded": mparse[:2000], "handed": want[:2000], "offending_frames": [hx(m)[:400] for m in bad[:3]]})
+    if t != "hs-proto" and any(not is_json(m) for m in msgs):
+        return ("property", f"{t}: a frame handed to a JSON transport is not a valid JSON text (clobbered shared buffer?)",
+                {"transport": t, "cause": "invalid-JSON-frame"},
+                {"offending_frames": [hx(m)[:600] for m in msgs if not is_json(m)][:3]})
+    if t == "sse" and any(json_equal_minus_cr(m) is False for m in msgs):
+        return ("property", "sse: the delivered event (message minus raw CR) is not JSON-equal to the message handed to the transport",
+                {"transport": t, "cause": "CR-strip-changes-JSON"},
+                {"offending_frames": [hx(m)[:400] for m in msgs if json_equal_minus_cr(m) is False][:3]})
+    if t != "hs-proto" and any(b"\n" in m for m in msgs):
+        return ("property", f"{t}: a frame handed to a JSON transport contains a raw LF (the JSON encoder was bypassed?)",
+                {"transport": t, "cause": "raw-LF-in-frame"}, {"offending_frames": [hx(m)[:400] for m in msgs if b"\n" in m][:3]})
+    if pyd != mparse:
+        return ("correspondence", f"{t}: Lean spec decoder and the independent Python decoder disagree",
+                {"kind": "spec-nversion", "transport": t}, {"lean": mparse[:1000], "python": pyd[:1000]})
+    if mbody != hx(body):
+        return ("correspondence", f"{t}: handler model writes a different body for the same messages",
+                {"kind": "body-diff", "transport": t}, {"model_body": mbody[:2000], "impl_body": hx(body)[:2000]})
+    return None
+
+
 def evaluate(ctx, binary, ops, record=True):
     """returns list of (op, verdict) with verdict None | (kind, msg, signature, extra)"""
     t0 = time.time()
     impl = ctx.go_run(binary, "TestVerifC32", ops, timeout=3000)
     tgo = time.time() - t0
-    lean_ops, index = [], []
+    lean_ops = []
     parsed = []
     for i, op in enumerate(ops):
         out = impl[i] if i < len(impl) else "HARNESS-ERROR missing output"
-        if out.startswith("HARNESS-ERROR") or not out.startswith("status="):
+        if out.startswith("HARNESS-ERROR") or not out.startswith(("status=", "multi ;; ")):
             parsed.append(None)
             ctx.count("harness-error")
             ctx.notes.append(f"harness error: {out[:200]} on {op[:100]}")
             continue
-        t = parse_scn(op)[0]
-        status, exp, msgs, body = parse_out(out)
-        parsed.append((t, status, exp, msgs, body))
-        lean_ops.append(f"{PREFIX[t]}-body {enlist(msgs)}")
-        lean_ops.append(f"{PREFIX[t]}-parse {hx(body)}")
-        index.append(i)
+        units = parse_units(op, out)
+        parsed.append(units)
+        for (t, status, exp, msgs, body) in units:
+            lean_ops.append(f"{PREFIX[t]}-body {enlist(msgs)}")
+            lean_ops.append(f"{PREFIX[t]}-parse {hx(body)}")
     t0 = time.time()
     model = lean_lines(ctx, lean_ops) if lean_ops else []
     if record:
@@ -284,63 +367,30 @@ def evaluate(ctx, binary, ops, record=True):
     res = []
     j = 0
     for i, op in enumerate(ops):
-        p = parsed[i]
-        if p is None:
+        units = parsed[i]
+        if units is None:
             res.append((op, None))
             continue
-        t, status, exp, msgs, body = p
-        if model is None or 2 * j + 1 >= len(model):
-            res.append((op, ("model", "lean driver produced no output", {}, {})))
-            j += 1
-            continue
-        mbody, mparse = model[2 * j], model[2 * j + 1]
-        j += 1
         verdict = None
-        if record:
-            ctx.count("transport:" + t)
-            ctx.count("msgs", len(msgs))
-            nl = sum(1 for m in msgs if b"\n" in m)
-            cr = sum(1 for m in msgs if b"\r" in m)
-            if t != "hs-proto":
-                ctx.count("json-frames-checked-for-CRLF", len(msgs))
-                if nl:
-                    ctx.count("json-frames-with-raw-LF", nl)
-                if cr:
-                    ctx.count("json-frames-with-raw-CR:" + t, cr)
-            else:
-                ctx.count("proto-frames-with-CR-or-LF", sum(1 for m in msgs if b"\n" in m or b"\r" in m))
-                ctx.count("proto-frames-empty", sum(1 for m in msgs if not m))
-        want = expected_decoding(t, msgs)
-        pyd = py_decode(t, body)
-        if status != 200:
-            verdict = ("harness", f"unexpected HTTP status {status}", {}, {})
-        elif len(msgs) != exp:
-            verdict = ("harness", f"{len(msgs)} messages handed to the transport, scenario expects {exp}", {}, {})
-        elif mparse != want:
-            cause = cause_of(t, msgs)
-            bad = [m for m in msgs if (b"\r" in m or b"\n" in m)] if t != "hs-proto" else []
-            verdict = ("property",
-                       f"{t}: the client-side decoding of the response body is not the sequence of messages handed to the transport ({cause})",
-                       {"transport": t, "cause": cause},
-                       {"decoded": mparse[:2000], "handed": want[:2000], "offending_frames": [hx(m)[:400] for m in bad[:3]]})
-        elif t == "sse" and any(json_equal_minus_cr(m) is False for m in msgs):
-            verdict = ("property", "sse: the delivered event (message minus raw CR) is not JSON-equal to the message handed to the transport",
-                       {"transport": t, "cause": "CR-strip-changes-JSON"},
-                       {"offending_frames": [hx(m)[:400] for m in msgs if json_equal_minus_cr(m) is False][:3]})
-        elif t != "hs-proto" and any(b"\n" in m for m in msgs):
-            verdict = ("property", f"{t}: a frame handed to a JSON transport contains a raw LF (the JSON encoder was bypassed?)",
-                       {"transport": t, "cause": "raw-LF-in-frame"}, {"offending_frames": [hx(m)[:400] for m in msgs if b"\n" in m][:3]})
-        elif pyd != mparse:
-            verdict = ("correspondence", f"{t}: Lean spec decoder and the independent Python decoder disagree",
-                       {"kind": "spec-nversion", "transport": t}, {"lean": mparse[:1000], "python": pyd[:1000]})
-        elif mbody != hx(body):
-            verdict = ("correspondence", f"{t}: handler model writes a different body for the same messages",
-                       {"kind": "body-diff", "transport": t}, {"model_body": mbody[:2000], "impl_body": hx(body)[:2000]})
+        for k, (t, status, exp, msgs, body) in enumerate(units):
+            if model is None or 2 * j + 1 >= len(model):
+                verdict = verdict or ("model", "lean driver produced no output", {}, {})
+                j += 1
+                continue
+            mbody, mparse = model[2 * j], model[2 * j + 1]
+            j += 1
+            v = judge(ctx, t, status, exp, msgs, body, mbody, mparse, record, tag=(":multi" if len(units) > 1 else ""))
+            if v is not None and (verdict is None or (verdict[0] != "property" and v[0] == "property")):
+                if len(units) > 1 and v[2]:
+                    v = (v[0], v[1] + f" [connection {k} of {len(units)}]", dict(v[2], multi=True), v[3])
+                verdict = v
         res.append((op, verdict))
     return res
 
 
 def shrink(ctx, binary, op, sig):
+    if not op.startswith("scn "):
+        return op
     t, m, dc, dr, steps = parse_scn(op)
 
     def fails(ss):
@@ -437,7 +487,8 @@ def run(ctx):
         if os.path.exists(fj):  # known findings are re-derived from their stored replay on every run
             for f in json.load(open(fj)).get("findings", []):
                 report(ctx, binary, evaluate(ctx, binary, f["replay"]["ops"], record=False), do_shrink=False)
-        ops = load_corpus() + [gen_scenario(ctx.rng) for _ in range(ctx.scale(600, 10000))]
+        ops = load_corpus() + [gen_scenario(ctx.rng) for _ in range(ctx.scale(600, 10000))] + \
+            [gen_multi(ctx.rng) for _ in range(ctx.scale(120, 2000))]
         res = []
         chunk = 500
         for i in range(0, len(ops), chunk):
